@@ -495,8 +495,12 @@ def c01_3(c: Ctx) -> None:
             for n in g.nodes_of(st):
                 # what a queue hands out is an event, never None (only dispatch() puts, and it puts the event it validated): a `None` test on the dequeued name is decided
                 nn = Facts(lambda a, var=var: a == var or a.startswith('__inl_'), rhs_value=lambda v: 'NN' if isinstance(v, (ast.Call, ast.Await)) and call_name(v.value if isinstance(v, ast.Await) else v) in ('get', 'get_nowait') else None, cg=c.cg, unit=u)
-                p = q.pair_search(g, n, lambda x: process_event_call_with(x, var), facts=nn, exc_ok=lambda e: False,
-                                  exits=lambda x: x.kind in ('exit', 'raise_exit') or (x is not n and x.kind in ('for', 'while') and q.lexically_in(st, x.ast)))
+                p = None
+                # (the dequeue may sit in a folded helper: the flags that say which of its returns were taken are known on arrival)
+                for env0 in (q.envs_at(g, n, nn) or [{}]):
+                    env0 = {k: v for k, v in env0.items() if k.startswith('__inl_')}
+                    p = p or q.pair_search(g, n, lambda x: process_event_call_with(x, var), facts=nn, env=env0, exc_ok=lambda e: False,
+                                           exits=lambda x: x.kind in ('exit', 'raise_exit') or (x is not n and x.kind in ('for', 'while') and q.lexically_in(st, x.ast)))
                 if p is None:
                     c.ok(where(u, st), f'every normal path from `{U(st)}` reaches process_event({var})')
                 else:
